@@ -520,6 +520,30 @@ func suiteC02(c *Ctx) []Suite {
 				})
 				out = append(out, Case{Detail: fmt.Sprintf("frame of a message with a %d-character ASCII item", n), Oracle: res, Nontrivial: true, Tags: []string{"huge-frame"}})
 			}
+			// the 3-byte limit bounds a list's element count and each leaf's payload, not the bytes of
+			// all children together: a list of a few large items encodes, and so does the message
+			for _, k := range []int{2, 3, 4} {
+				var res string
+				safely(func() {
+					leaf := ast.NewASCIINode(string(bytes.Repeat([]byte{'y'}, 6000000)))
+					kids := make([]interface{}, k)
+					for i := range kids {
+						kids[i] = leaf
+					}
+					it := ast.NewListNode(kids...)
+					ib := it.ToBytes()
+					want := 2 + k*(4+6000000)
+					if len(ib) != want || ib[0] != 0x01 || int(ib[1]) != k {
+						res = fmt.Sprintf("a list of %d ASCII items of 6,000,000 characters encodes to %d bytes (first % x), the encoding has %d", k, len(ib), ib[:imin(len(ib), 4)], want)
+						return
+					}
+					b := ast.NewHSMSDataMessage("", 1, 1, 0, "H<->E", ast.NewListNode(ast.NewUintNode(1, 1), it), 1, []byte{0, 0, 0, 1}).ToBytes()
+					if len(b) != 14+2+3+want || binary.BigEndian.Uint32(b) != uint32(10+2+3+want) {
+						res = fmt.Sprintf("a message holding that list encodes to %d bytes", len(b))
+					}
+				})
+				out = append(out, Case{Detail: fmt.Sprintf("list of %d items of 6,000,000 characters", k), Oracle: res, Nontrivial: true, Tags: []string{"large-children"}})
+			}
 			return out
 		}},
 		{Name: "wire/exhaustive-small-widths", Gen: func(c *Ctx) []Case {
@@ -815,8 +839,15 @@ func suiteC13base(c *Ctx) []Suite {
 			if c.Tier == "thorough" {
 				sizes = append(sizes, 16777215)
 			}
-			for _, n := range sizes {
+			for vi, n := range append(append([]int{}, sizes...), sizes...) {
 				str := bytes.Repeat([]byte{'a'}, n)
+				if vi >= len(sizes) {
+					// the same lengths with NUL characters at the end (padding some equipment sends):
+					// they are characters like any other and count
+					for k := n - 1; k >= 0 && k >= n-1-vi; k-- {
+						str[k] = 0
+					}
+				}
 				var res string
 				safely(func() {
 					it := ast.NewASCIINode(string(str))
@@ -837,6 +868,14 @@ func suiteC13base(c *Ctx) []Suite {
 					}
 				})
 				out = append(out, Case{Detail: fmt.Sprintf("real ASCII item, %d characters", n), Oracle: res, Nontrivial: true, Tags: []string{"real-item"}})
+			}
+			// characters beyond 7 bits are no ASCII: a string of 128 or 32768 two-byte characters has
+			// 256 or 65536 bytes but would be written as 128 or 32768 - the factory refuses it
+			for _, n := range []int{1, 127, 128, 255, 256, 32768} {
+				for _, ch := range []string{"\u00b5", "\u00e9", "\u00ff", "\u0080"} {
+					out = append(out, Case{Op: "ctor ascii " + hxs(strings.Repeat(ch, n)), Decisive: true, Nontrivial: true, Tags: []string{"latin1-at-boundary"}}.fields("bytes"))
+					out = append(out, Case{Op: "ctor ascii " + hxs(strings.Repeat("a", n)+ch), Decisive: true, Nontrivial: true, Tags: []string{"latin1-at-boundary"}}.fields("bytes"))
+				}
 			}
 			// lists with exactly 255, 256, 65535, 65536 elements: header from the element count
 			for _, n := range []int{255, 256, 257, 65535, 65536} {
@@ -1108,6 +1147,17 @@ func suiteC14(c *Ctx) []Suite {
 				for b3 := 0; b3 < 256; b3++ {
 					for _, b2 := range []int{0, 1, 2, 7, 0x80, 0xff, c.R.Intn(256)} {
 						h := []byte{byte(c.R.Intn(256)), byte(c.R.Intn(256)), byte(b2), byte(b3), 0, byte(st), byte(c.R.Intn(256)), 2, 3, 4}
+						// the session id at its ends and at random (a header that begins 00 00 00 0A
+						// looks like a length field)
+						switch c.R.Intn(4) {
+						case 0:
+							h[0], h[1] = 0, 0
+						case 1:
+							h[0], h[1] = 0xff, 0xff
+						}
+						if b2 == 0 && (b3 == 10 || b3 == 14) {
+							h[0], h[1] = 0, 0
+						}
 						var res string
 						safely(func() {
 							m := ast.NewHSMSControlMessage(h)
@@ -1129,7 +1179,7 @@ func suiteC14(c *Ctx) []Suite {
 			}
 			for reason := 0; reason < 256; reason++ {
 				for _, ps := range [][2]int{{0, 0}, {1, 0}, {0, 1}, {1, 9}, {255, 7}, {c.R.Intn(256), c.R.Intn(256)}} {
-					sid := c.R.Intn(65536)
+					sid := pick(c.R, 0, 0, 65535, c.R.Intn(65536), c.R.Intn(65536))
 					var res string
 					safely(func() {
 						m := ast.NewHSMSMessageRejectReq(uint16(sid), byte(ps[0]), byte(ps[1]), []byte{5, 6, 7, 8}, byte(reason))
